@@ -23,3 +23,5 @@ echo "--- suite with change"; go test -vet=off -count=1 ./... 2>&1 | grep -v "no
 cd /verif
 for c in $checks; do echo "--- check $c"; ./bin/vc check $c --tier quick 2>&1 | grep -E "VIOLATION|KNOWN|property" | cut -c1-300 | head -8; done
 git -C /repo checkout -- . ; git -C /repo status --short
+# refresh the evidence files on the unchanged tree (the runs above rewrote them on the changed one)
+for c in $checks; do ./bin/vc check $c --tier quick >/dev/null 2>&1 || echo "WARNING: $c does not pass on the unchanged tree"; done
